@@ -147,6 +147,7 @@ func c10Catalogue() []c10Offence {
 func TestC10(t *testing.T) {
 	r := vf.Begin(t, "C10")
 	defer r.End()
+	defer perturbReport(r)
 	cat := c10Catalogue()
 	r.Describe(fmt.Sprintf("PRNG placements (synctest bubble) of one connection-scoped offence out of a catalogue of %d (frame-size, sequencing, stream-0/stream-id, settings, flow-control, compression violations) inside multiplexed traffic: 0-6 requests before it (answered, still running, or parked in the handler) and 0-6 after it, ", len(cat))+
 		"followed by one of four peer behaviours (silent; 200-1000 more frames; stops reading while sending; disconnects), plus idle-timeout shutdown racing new requests. Monitors: every GOAWAY's last-stream-id >= the highest stream id any handler was ever started for on the connection; its code is one RFC 7540 allows for the offence (or the connection is just closed); no stream above the highest one opened before the offence is dispatched afterwards; "+
